@@ -5,10 +5,11 @@
   orders; every check fails, if it fails, with the same error, which is what the `_cases` lemmas record.
 -/
 import DDV.Gen.DslRender
+import DDV.Gen.Lemmas.FrontCases
 set_option linter.unusedSimpArgs false
 set_option linter.unusedVariables false
 namespace DDV.Gen.HirLemmas
-open DDV.Gen DDV.Gen.Dsl
+open DDV.Gen DDV.Gen.Dsl DDV.Gen.FrontCases
 
 theorem toInt_hLit (n : Int) : (hLit n).toInt = n := by
   unfold hLit HLit.toInt
@@ -107,8 +108,7 @@ theorem hirConv_rConv (descr : String) (c : AConv) (h : ConvOk (some c)) :
     simp only [Function.comp_def] at *
     rw [this]; rfl
 
-theorem hirField_rField (g : GlobalConfig) (f : AField) (h : ConvOk f.conv)
-    (hr : f.base ≠ .bool → f.stop.isSome) : hirField g (rField f) = dslField g f := by
+theorem hirField_rField (g : GlobalConfig) (f : AField) (h : ConvOk f.conv) : hirField g (rField f) = dslField g f := by
   have hconv : (f.conv.map rConv).mapM (hirConv (f.description.getD "")) = pure (f.conv.map (convOf (f.description.getD ""))) := by
     cases hc : f.conv with
     | none => rfl
@@ -127,10 +127,8 @@ theorem hirField_rField (g : GlobalConfig) (f : AField) (h : ConvOk f.conv)
   simp only [hirCfg_rAttrs, hirDescr_rAttrs, hconv, hmap]
   cases hs : f.stop with
   | none =>
-    have hb : f.base = .bool := by
-      cases hbb : f.base <;> simp_all
-    simp only [hb, litU32_hNat]
-    cases checkU32 f.start <;> rfl
+    simp only [litU32_hNat]
+    cases hb : (f.base == BaseType.bool) <;> cases checkU32 f.start <;> rfl
   | some e =>
     simp only [litU32_hNat]
     cases checkU32 f.start <;> cases checkU32 e <;> rfl
@@ -247,54 +245,12 @@ theorem reg_reset (h : ResetOk reset) :
 
 end RegItems
 
-/-! ### Every check of the lowering fails, if it fails, with the same error -/
-
-def bv : Stop := frontErr "front_bad_value"
-
-theorem checkAddr_cases (a : Int) : checkAddr a = .ok a ∨ checkAddr a = .error bv := by
-  unfold checkAddr; split <;> simp [bv, pure, Except.pure, throw, throwThe, MonadExceptOf.throw]
-theorem checkU32_cases (n : Nat) : checkU32 n = .ok n ∨ checkU32 n = .error bv := by
-  unfold checkU32; split <;> simp [bv, pure, Except.pure, throw, throwThe, MonadExceptOf.throw]
-theorem checkRepeat_cases (r : Option Repeat) : checkRepeat r = .ok r ∨ checkRepeat r = .error bv := by
-  unfold checkRepeat
-  cases r with
-  | none => simp [pure, Except.pure]
-  | some r => simp only; split <;> simp [bv, pure, Except.pure, throw, throwThe, MonadExceptOf.throw]
-theorem dslReset_cases (r : Option ResetValue) : dslReset r = .ok r ∨ dslReset r = .error bv := by
-  unfold dslReset
-  cases r with
-  | none => simp [pure, Except.pure]
-  | some rv => cases rv <;> (simp only; split <;> simp [bv, pure, Except.pure, throw, throwThe, MonadExceptOf.throw])
-
-theorem dslField_cases (g : GlobalConfig) (f : AField) (hr : f.base ≠ .bool → f.stop.isSome) :
-    (∃ v, dslField g f = .ok v) ∨ dslField g f = .error bv := by
-  unfold dslField
-  rcases checkU32_cases f.start with h1 | h1 <;> rw [h1]
-  · cases hs : f.stop with
-    | none =>
-      have hb : f.base = .bool := by cases hbb : f.base <;> simp_all
-      simp [hb, bind, Except.bind, pure, Except.pure]
-    | some e =>
-      rcases checkU32_cases e with h2 | h2 <;> simp [h2, bind, Except.bind, pure, Except.pure]
-  · simp [bind, Except.bind]
-
-theorem mapM_cases {α β : Type} (f : α → M β) : ∀ (l : List α),
-    (∀ x ∈ l, (∃ v, f x = .ok v) ∨ f x = .error bv) → (∃ v, l.mapM f = .ok v) ∨ l.mapM f = .error bv
-  | [], _ => Or.inl ⟨[], rfl⟩
-  | x :: xs, h => by
-    rw [List.mapM_cons]
-    rcases h x (List.mem_cons_self ..) with ⟨v, hv⟩ | hv
-    · rcases mapM_cases f xs (fun y hy => h y (List.mem_cons_of_mem _ hy)) with ⟨vs, hvs⟩ | hvs
-      · exact Or.inl ⟨v :: vs, by simp [hv, hvs, bind, Except.bind, pure, Except.pure]⟩
-      · exact Or.inr (by simp [hv, hvs, bind, Except.bind])
-    · exact Or.inr (by simp [hv, bind, Except.bind])
-
-def FieldOk (f : AField) : Prop := ConvOk f.conv ∧ (f.base ≠ .bool → f.stop.isSome)
+def FieldOk (f : AField) : Prop := ConvOk f.conv
 
 theorem fields_render (g : GlobalConfig) (fields : List AField) (h : ∀ f ∈ fields, FieldOk f) :
     (fields.map rField).mapM (hirField g) = fields.mapM (dslField g) := by
   rw [List.mapM_map]
-  exact C16h.mapM_congr _ _ fields (fun f hf => hirField_rField g f (h f hf).1 (h f hf).2)
+  exact C16h.mapM_congr _ _ fields (fun f hf => hirField_rField g f (h f hf))
 
 theorem register_render (g : GlobalConfig) (c : ACommon) (access : Option Access) (bo : Option DDV.Bits.ByteOrder)
     (bito : Option DDV.Bits.BitOrder) (address : Int) (size : Nat) (reset : Option ResetValue) (rep : Option Repeat)
@@ -305,10 +261,8 @@ theorem register_render (g : GlobalConfig) (c : ACommon) (access : Option Access
   simp only [hirCfg_rAttrs, hirDescr_rAttrs, reg_access, reg_byteOrder, reg_bitOrder, reg_abo, reg_aao, findLit,
     reg_address, reg_sizeBits, reg_reset _ _ _ _ _ _ _ _ _ hres, hirRegRepeat, reg_repeat, hirRepeat_rRepeat,
     fields_render g fields hf, Option.mapM_some, litI64_hLit, litU32_hNat]
-  rcases checkAddr_cases address with h1 | h1 <;> rcases checkU32_cases size with h2 | h2 <;>
-    rcases dslReset_cases reset with h3 | h3 <;> rcases checkRepeat_cases rep with h4 | h4 <;>
-    rcases mapM_cases (dslField g) fields (fun f hf' => dslField_cases g f (hf f hf').2) with ⟨v, h5⟩ | h5 <;>
-    simp [h1, h2, h3, h4, h5, bind, Except.bind, pure, Except.pure, Functor.map, Except.map]
+  cases checkAddr address <;> cases checkU32 size <;> cases dslReset reset <;> cases checkRepeat rep <;>
+    cases fields.mapM (dslField g) <;> rfl
 
 section CmdItems
 variable (address : Int) (bo : Option DDV.Bits.ByteOrder) (bito : Option DDV.Bits.BitOrder) (si so : Option Nat)
@@ -351,16 +305,15 @@ theorem command_render (g : GlobalConfig) (c : ACommon) (basic : Bool) (address 
   | false =>
     unfold rObj hirObj hirCommand dslObj
     have h0 : checkU32 0 = Except.ok 0 := rfl
-    rcases checkAddr_cases address with h1 | h1 <;> rcases checkU32_cases (si.getD 0) with h2 | h2 <;>
-      rcases checkU32_cases (so.getD 0) with h3 | h3 <;> rcases checkRepeat_cases rep with h4 | h4 <;>
-      rcases mapM_cases (dslField g) (fin.getD []) (fun f hf' => dslField_cases g f (hi f hf').2) with ⟨v, h5⟩ | h5 <;>
-      rcases mapM_cases (dslField g) (fout.getD []) (fun f hf' => dslField_cases g f (ho f hf').2) with ⟨w, h6⟩ | h6 <;>
-      cases si <;> cases so <;>
+    cases si <;> cases so <;>
+      cases h1 : checkAddr address <;> cases h4 : checkRepeat rep <;>
+      cases h5 : (fin.getD []).mapM (dslField g) <;> cases h6 : (fout.getD []).mapM (dslField g) <;>
       simp [hirCfg_rAttrs, hirDescr_rAttrs, cmd_address, cmd_byteOrder, cmd_bitOrder, cmd_abo,
         cmd_aao, cmd_si, cmd_so, hirCmdRepeat, cmd_repeat, hirRepeat_rRepeat, litI64_hLit, litU32_hNat,
-        optFields_render g _ hi, optFields_render g _ ho, bind, Except.bind, pure, Except.pure, Functor.map, Except.map] at * <;>
-      (try simp [h1, h2, h3, h4, h5, h6]) <;>
-      (try (rw [h0] at h3; cases h3)) <;> (try (rw [h0] at h2; cases h2))
+        optFields_render g _ hi, optFields_render g _ ho, h0, h1, h4, h5, h6, bind, Except.bind, pure, Except.pure,
+        Functor.map, Except.map] <;>
+      (try (generalize checkU32 _ = x; cases x <;> try simp)) <;>
+      (try (generalize checkU32 _ = y; cases y <;> try simp))
 
 theorem buffer_render (g : GlobalConfig) (c : ACommon) (access : Option Access) (address : Int) :
     hirObj g (rObj (.buffer c access address)) = dslObj g (.buffer c access address) := by
@@ -503,186 +456,5 @@ theorem objs_render (g : GlobalConfig) : ∀ (os : List AObj), TreesOk os → hi
     unfold rObjs hirObjs dslObjs
     rw [obj_render g o h.1, objs_render g os h.2]
 end
-
-/-! ### Global config -/
-
-theorem len_filter_optItem_ne {α β : Type} (o : Option α) (f : α → β) (p : β → Bool) (h : ∀ a, p (f a) = false) :
-    ((optItem o f).filter p).length = 0 := by
-  cases o <;> simp [optItem, h]
-theorem len_filter_optItem_le {α β : Type} (o : Option α) (f : α → β) (p : β → Bool) :
-    ((optItem o f).filter p).length ≤ 1 := by
-  cases o with
-  | none => simp [optItem]
-  | some a => simp only [optItem]; cases h : p (f a) <;> simp [List.filter, h]
-
-theorem config_count (c : AConfig) (k : Nat) : ((rConfig c).filter fun c' => c'.tag == k).length ≤ 1 := by
-  unfold rConfig
-  simp only [List.filter_append, List.length_append]
-  by_cases hk : k < 10
-  · have : k = 0 ∨ k = 1 ∨ k = 2 ∨ k = 3 ∨ k = 4 ∨ k = 5 ∨ k = 6 ∨ k = 7 ∨ k = 8 ∨ k = 9 := by omega
-    rcases this with rfl | rfl | rfl | rfl | rfl | rfl | rfl | rfl | rfl | rfl
-    · have h0 := len_filter_optItem_le c.defaultRegisterAccess HConfig.defaultRegisterAccess (fun c' => c'.tag == 0)
-      have h1 := len_filter_optItem_ne c.defaultFieldAccess HConfig.defaultFieldAccess (fun c' => c'.tag == 0) (fun _ => rfl)
-      have h2 := len_filter_optItem_ne c.defaultBufferAccess HConfig.defaultBufferAccess (fun c' => c'.tag == 0) (fun _ => rfl)
-      have h3 := len_filter_optItem_ne c.defaultByteOrder HConfig.defaultByteOrder (fun c' => c'.tag == 0) (fun _ => rfl)
-      have h4 := len_filter_optItem_ne c.defaultBitOrder HConfig.defaultBitOrder (fun c' => c'.tag == 0) (fun _ => rfl)
-      have h5 := len_filter_optItem_ne c.registerAddressType (fun i => HConfig.registerAddressType i.name) (fun c' => c'.tag == 0) (fun _ => rfl)
-      have h6 := len_filter_optItem_ne c.commandAddressType (fun i => HConfig.commandAddressType i.name) (fun c' => c'.tag == 0) (fun _ => rfl)
-      have h7 := len_filter_optItem_ne c.bufferAddressType (fun i => HConfig.bufferAddressType i.name) (fun c' => c'.tag == 0) (fun _ => rfl)
-      have h8 := len_filter_optItem_ne c.nameWordBoundaries HConfig.nameWordBoundaries (fun c' => c'.tag == 0) (fun _ => rfl)
-      have h9 := len_filter_optItem_ne c.defmtFeature HConfig.defmtFeature (fun c' => c'.tag == 0) (fun _ => rfl)
-      omega
-    · have h0 := len_filter_optItem_ne c.defaultRegisterAccess HConfig.defaultRegisterAccess (fun c' => c'.tag == 1) (fun _ => rfl)
-      have h1 := len_filter_optItem_le c.defaultFieldAccess HConfig.defaultFieldAccess (fun c' => c'.tag == 1)
-      have h2 := len_filter_optItem_ne c.defaultBufferAccess HConfig.defaultBufferAccess (fun c' => c'.tag == 1) (fun _ => rfl)
-      have h3 := len_filter_optItem_ne c.defaultByteOrder HConfig.defaultByteOrder (fun c' => c'.tag == 1) (fun _ => rfl)
-      have h4 := len_filter_optItem_ne c.defaultBitOrder HConfig.defaultBitOrder (fun c' => c'.tag == 1) (fun _ => rfl)
-      have h5 := len_filter_optItem_ne c.registerAddressType (fun i => HConfig.registerAddressType i.name) (fun c' => c'.tag == 1) (fun _ => rfl)
-      have h6 := len_filter_optItem_ne c.commandAddressType (fun i => HConfig.commandAddressType i.name) (fun c' => c'.tag == 1) (fun _ => rfl)
-      have h7 := len_filter_optItem_ne c.bufferAddressType (fun i => HConfig.bufferAddressType i.name) (fun c' => c'.tag == 1) (fun _ => rfl)
-      have h8 := len_filter_optItem_ne c.nameWordBoundaries HConfig.nameWordBoundaries (fun c' => c'.tag == 1) (fun _ => rfl)
-      have h9 := len_filter_optItem_ne c.defmtFeature HConfig.defmtFeature (fun c' => c'.tag == 1) (fun _ => rfl)
-      omega
-    · have h0 := len_filter_optItem_ne c.defaultRegisterAccess HConfig.defaultRegisterAccess (fun c' => c'.tag == 2) (fun _ => rfl)
-      have h1 := len_filter_optItem_ne c.defaultFieldAccess HConfig.defaultFieldAccess (fun c' => c'.tag == 2) (fun _ => rfl)
-      have h2 := len_filter_optItem_le c.defaultBufferAccess HConfig.defaultBufferAccess (fun c' => c'.tag == 2)
-      have h3 := len_filter_optItem_ne c.defaultByteOrder HConfig.defaultByteOrder (fun c' => c'.tag == 2) (fun _ => rfl)
-      have h4 := len_filter_optItem_ne c.defaultBitOrder HConfig.defaultBitOrder (fun c' => c'.tag == 2) (fun _ => rfl)
-      have h5 := len_filter_optItem_ne c.registerAddressType (fun i => HConfig.registerAddressType i.name) (fun c' => c'.tag == 2) (fun _ => rfl)
-      have h6 := len_filter_optItem_ne c.commandAddressType (fun i => HConfig.commandAddressType i.name) (fun c' => c'.tag == 2) (fun _ => rfl)
-      have h7 := len_filter_optItem_ne c.bufferAddressType (fun i => HConfig.bufferAddressType i.name) (fun c' => c'.tag == 2) (fun _ => rfl)
-      have h8 := len_filter_optItem_ne c.nameWordBoundaries HConfig.nameWordBoundaries (fun c' => c'.tag == 2) (fun _ => rfl)
-      have h9 := len_filter_optItem_ne c.defmtFeature HConfig.defmtFeature (fun c' => c'.tag == 2) (fun _ => rfl)
-      omega
-    · have h0 := len_filter_optItem_ne c.defaultRegisterAccess HConfig.defaultRegisterAccess (fun c' => c'.tag == 3) (fun _ => rfl)
-      have h1 := len_filter_optItem_ne c.defaultFieldAccess HConfig.defaultFieldAccess (fun c' => c'.tag == 3) (fun _ => rfl)
-      have h2 := len_filter_optItem_ne c.defaultBufferAccess HConfig.defaultBufferAccess (fun c' => c'.tag == 3) (fun _ => rfl)
-      have h3 := len_filter_optItem_le c.defaultByteOrder HConfig.defaultByteOrder (fun c' => c'.tag == 3)
-      have h4 := len_filter_optItem_ne c.defaultBitOrder HConfig.defaultBitOrder (fun c' => c'.tag == 3) (fun _ => rfl)
-      have h5 := len_filter_optItem_ne c.registerAddressType (fun i => HConfig.registerAddressType i.name) (fun c' => c'.tag == 3) (fun _ => rfl)
-      have h6 := len_filter_optItem_ne c.commandAddressType (fun i => HConfig.commandAddressType i.name) (fun c' => c'.tag == 3) (fun _ => rfl)
-      have h7 := len_filter_optItem_ne c.bufferAddressType (fun i => HConfig.bufferAddressType i.name) (fun c' => c'.tag == 3) (fun _ => rfl)
-      have h8 := len_filter_optItem_ne c.nameWordBoundaries HConfig.nameWordBoundaries (fun c' => c'.tag == 3) (fun _ => rfl)
-      have h9 := len_filter_optItem_ne c.defmtFeature HConfig.defmtFeature (fun c' => c'.tag == 3) (fun _ => rfl)
-      omega
-    · have h0 := len_filter_optItem_ne c.defaultRegisterAccess HConfig.defaultRegisterAccess (fun c' => c'.tag == 4) (fun _ => rfl)
-      have h1 := len_filter_optItem_ne c.defaultFieldAccess HConfig.defaultFieldAccess (fun c' => c'.tag == 4) (fun _ => rfl)
-      have h2 := len_filter_optItem_ne c.defaultBufferAccess HConfig.defaultBufferAccess (fun c' => c'.tag == 4) (fun _ => rfl)
-      have h3 := len_filter_optItem_ne c.defaultByteOrder HConfig.defaultByteOrder (fun c' => c'.tag == 4) (fun _ => rfl)
-      have h4 := len_filter_optItem_le c.defaultBitOrder HConfig.defaultBitOrder (fun c' => c'.tag == 4)
-      have h5 := len_filter_optItem_ne c.registerAddressType (fun i => HConfig.registerAddressType i.name) (fun c' => c'.tag == 4) (fun _ => rfl)
-      have h6 := len_filter_optItem_ne c.commandAddressType (fun i => HConfig.commandAddressType i.name) (fun c' => c'.tag == 4) (fun _ => rfl)
-      have h7 := len_filter_optItem_ne c.bufferAddressType (fun i => HConfig.bufferAddressType i.name) (fun c' => c'.tag == 4) (fun _ => rfl)
-      have h8 := len_filter_optItem_ne c.nameWordBoundaries HConfig.nameWordBoundaries (fun c' => c'.tag == 4) (fun _ => rfl)
-      have h9 := len_filter_optItem_ne c.defmtFeature HConfig.defmtFeature (fun c' => c'.tag == 4) (fun _ => rfl)
-      omega
-    · have h0 := len_filter_optItem_ne c.defaultRegisterAccess HConfig.defaultRegisterAccess (fun c' => c'.tag == 5) (fun _ => rfl)
-      have h1 := len_filter_optItem_ne c.defaultFieldAccess HConfig.defaultFieldAccess (fun c' => c'.tag == 5) (fun _ => rfl)
-      have h2 := len_filter_optItem_ne c.defaultBufferAccess HConfig.defaultBufferAccess (fun c' => c'.tag == 5) (fun _ => rfl)
-      have h3 := len_filter_optItem_ne c.defaultByteOrder HConfig.defaultByteOrder (fun c' => c'.tag == 5) (fun _ => rfl)
-      have h4 := len_filter_optItem_ne c.defaultBitOrder HConfig.defaultBitOrder (fun c' => c'.tag == 5) (fun _ => rfl)
-      have h5 := len_filter_optItem_le c.registerAddressType (fun i => HConfig.registerAddressType i.name) (fun c' => c'.tag == 5)
-      have h6 := len_filter_optItem_ne c.commandAddressType (fun i => HConfig.commandAddressType i.name) (fun c' => c'.tag == 5) (fun _ => rfl)
-      have h7 := len_filter_optItem_ne c.bufferAddressType (fun i => HConfig.bufferAddressType i.name) (fun c' => c'.tag == 5) (fun _ => rfl)
-      have h8 := len_filter_optItem_ne c.nameWordBoundaries HConfig.nameWordBoundaries (fun c' => c'.tag == 5) (fun _ => rfl)
-      have h9 := len_filter_optItem_ne c.defmtFeature HConfig.defmtFeature (fun c' => c'.tag == 5) (fun _ => rfl)
-      omega
-    · have h0 := len_filter_optItem_ne c.defaultRegisterAccess HConfig.defaultRegisterAccess (fun c' => c'.tag == 6) (fun _ => rfl)
-      have h1 := len_filter_optItem_ne c.defaultFieldAccess HConfig.defaultFieldAccess (fun c' => c'.tag == 6) (fun _ => rfl)
-      have h2 := len_filter_optItem_ne c.defaultBufferAccess HConfig.defaultBufferAccess (fun c' => c'.tag == 6) (fun _ => rfl)
-      have h3 := len_filter_optItem_ne c.defaultByteOrder HConfig.defaultByteOrder (fun c' => c'.tag == 6) (fun _ => rfl)
-      have h4 := len_filter_optItem_ne c.defaultBitOrder HConfig.defaultBitOrder (fun c' => c'.tag == 6) (fun _ => rfl)
-      have h5 := len_filter_optItem_ne c.registerAddressType (fun i => HConfig.registerAddressType i.name) (fun c' => c'.tag == 6) (fun _ => rfl)
-      have h6 := len_filter_optItem_le c.commandAddressType (fun i => HConfig.commandAddressType i.name) (fun c' => c'.tag == 6)
-      have h7 := len_filter_optItem_ne c.bufferAddressType (fun i => HConfig.bufferAddressType i.name) (fun c' => c'.tag == 6) (fun _ => rfl)
-      have h8 := len_filter_optItem_ne c.nameWordBoundaries HConfig.nameWordBoundaries (fun c' => c'.tag == 6) (fun _ => rfl)
-      have h9 := len_filter_optItem_ne c.defmtFeature HConfig.defmtFeature (fun c' => c'.tag == 6) (fun _ => rfl)
-      omega
-    · have h0 := len_filter_optItem_ne c.defaultRegisterAccess HConfig.defaultRegisterAccess (fun c' => c'.tag == 7) (fun _ => rfl)
-      have h1 := len_filter_optItem_ne c.defaultFieldAccess HConfig.defaultFieldAccess (fun c' => c'.tag == 7) (fun _ => rfl)
-      have h2 := len_filter_optItem_ne c.defaultBufferAccess HConfig.defaultBufferAccess (fun c' => c'.tag == 7) (fun _ => rfl)
-      have h3 := len_filter_optItem_ne c.defaultByteOrder HConfig.defaultByteOrder (fun c' => c'.tag == 7) (fun _ => rfl)
-      have h4 := len_filter_optItem_ne c.defaultBitOrder HConfig.defaultBitOrder (fun c' => c'.tag == 7) (fun _ => rfl)
-      have h5 := len_filter_optItem_ne c.registerAddressType (fun i => HConfig.registerAddressType i.name) (fun c' => c'.tag == 7) (fun _ => rfl)
-      have h6 := len_filter_optItem_ne c.commandAddressType (fun i => HConfig.commandAddressType i.name) (fun c' => c'.tag == 7) (fun _ => rfl)
-      have h7 := len_filter_optItem_le c.bufferAddressType (fun i => HConfig.bufferAddressType i.name) (fun c' => c'.tag == 7)
-      have h8 := len_filter_optItem_ne c.nameWordBoundaries HConfig.nameWordBoundaries (fun c' => c'.tag == 7) (fun _ => rfl)
-      have h9 := len_filter_optItem_ne c.defmtFeature HConfig.defmtFeature (fun c' => c'.tag == 7) (fun _ => rfl)
-      omega
-    · have h0 := len_filter_optItem_ne c.defaultRegisterAccess HConfig.defaultRegisterAccess (fun c' => c'.tag == 8) (fun _ => rfl)
-      have h1 := len_filter_optItem_ne c.defaultFieldAccess HConfig.defaultFieldAccess (fun c' => c'.tag == 8) (fun _ => rfl)
-      have h2 := len_filter_optItem_ne c.defaultBufferAccess HConfig.defaultBufferAccess (fun c' => c'.tag == 8) (fun _ => rfl)
-      have h3 := len_filter_optItem_ne c.defaultByteOrder HConfig.defaultByteOrder (fun c' => c'.tag == 8) (fun _ => rfl)
-      have h4 := len_filter_optItem_ne c.defaultBitOrder HConfig.defaultBitOrder (fun c' => c'.tag == 8) (fun _ => rfl)
-      have h5 := len_filter_optItem_ne c.registerAddressType (fun i => HConfig.registerAddressType i.name) (fun c' => c'.tag == 8) (fun _ => rfl)
-      have h6 := len_filter_optItem_ne c.commandAddressType (fun i => HConfig.commandAddressType i.name) (fun c' => c'.tag == 8) (fun _ => rfl)
-      have h7 := len_filter_optItem_ne c.bufferAddressType (fun i => HConfig.bufferAddressType i.name) (fun c' => c'.tag == 8) (fun _ => rfl)
-      have h8 := len_filter_optItem_le c.nameWordBoundaries HConfig.nameWordBoundaries (fun c' => c'.tag == 8)
-      have h9 := len_filter_optItem_ne c.defmtFeature HConfig.defmtFeature (fun c' => c'.tag == 8) (fun _ => rfl)
-      omega
-    · have h0 := len_filter_optItem_ne c.defaultRegisterAccess HConfig.defaultRegisterAccess (fun c' => c'.tag == 9) (fun _ => rfl)
-      have h1 := len_filter_optItem_ne c.defaultFieldAccess HConfig.defaultFieldAccess (fun c' => c'.tag == 9) (fun _ => rfl)
-      have h2 := len_filter_optItem_ne c.defaultBufferAccess HConfig.defaultBufferAccess (fun c' => c'.tag == 9) (fun _ => rfl)
-      have h3 := len_filter_optItem_ne c.defaultByteOrder HConfig.defaultByteOrder (fun c' => c'.tag == 9) (fun _ => rfl)
-      have h4 := len_filter_optItem_ne c.defaultBitOrder HConfig.defaultBitOrder (fun c' => c'.tag == 9) (fun _ => rfl)
-      have h5 := len_filter_optItem_ne c.registerAddressType (fun i => HConfig.registerAddressType i.name) (fun c' => c'.tag == 9) (fun _ => rfl)
-      have h6 := len_filter_optItem_ne c.commandAddressType (fun i => HConfig.commandAddressType i.name) (fun c' => c'.tag == 9) (fun _ => rfl)
-      have h7 := len_filter_optItem_ne c.bufferAddressType (fun i => HConfig.bufferAddressType i.name) (fun c' => c'.tag == 9) (fun _ => rfl)
-      have h8 := len_filter_optItem_ne c.nameWordBoundaries HConfig.nameWordBoundaries (fun c' => c'.tag == 9) (fun _ => rfl)
-      have h9 := len_filter_optItem_le c.defmtFeature HConfig.defmtFeature (fun c' => c'.tag == 9)
-      omega
-  · have h0 := len_filter_optItem_ne c.defaultRegisterAccess HConfig.defaultRegisterAccess (fun c' => c'.tag == k) (fun _ => by simp [HConfig.tag]; omega)
-    have h1 := len_filter_optItem_ne c.defaultFieldAccess HConfig.defaultFieldAccess (fun c' => c'.tag == k) (fun _ => by simp [HConfig.tag]; omega)
-    have h2 := len_filter_optItem_ne c.defaultBufferAccess HConfig.defaultBufferAccess (fun c' => c'.tag == k) (fun _ => by simp [HConfig.tag]; omega)
-    have h3 := len_filter_optItem_ne c.defaultByteOrder HConfig.defaultByteOrder (fun c' => c'.tag == k) (fun _ => by simp [HConfig.tag]; omega)
-    have h4 := len_filter_optItem_ne c.defaultBitOrder HConfig.defaultBitOrder (fun c' => c'.tag == k) (fun _ => by simp [HConfig.tag]; omega)
-    have h5 := len_filter_optItem_ne c.registerAddressType (fun i => HConfig.registerAddressType i.name) (fun c' => c'.tag == k) (fun _ => by simp [HConfig.tag]; omega)
-    have h6 := len_filter_optItem_ne c.commandAddressType (fun i => HConfig.commandAddressType i.name) (fun c' => c'.tag == k) (fun _ => by simp [HConfig.tag]; omega)
-    have h7 := len_filter_optItem_ne c.bufferAddressType (fun i => HConfig.bufferAddressType i.name) (fun c' => c'.tag == k) (fun _ => by simp [HConfig.tag]; omega)
-    have h8 := len_filter_optItem_ne c.nameWordBoundaries HConfig.nameWordBoundaries (fun c' => c'.tag == k) (fun _ => by simp [HConfig.tag]; omega)
-    have h9 := len_filter_optItem_ne c.defmtFeature HConfig.defmtFeature (fun c' => c'.tag == k) (fun _ => by simp [HConfig.tag]; omega)
-    omega
-
-theorem hirInteger_name (i : Integer) : hirInteger i.name = pure i := by cases i <;> rfl
-
-theorem foldlM_optItem_append {α β γ : Type} (o : Option α) (f : α → β) (step : γ → β → M γ) (g : γ) (l : List β) :
-    (optItem o f ++ l).foldlM step g =
-      (match o with
-       | none => l.foldlM step g
-       | some a => step g (f a) >>= fun g' => l.foldlM step g') := by
-  cases o <;> simp [optItem, List.foldlM_cons]
-
-theorem config_step (all : List HConfig) (hall : ∀ k, (all.filter fun c' => c'.tag == k).length ≤ 1)
-    (g : GlobalConfig) (x : HConfig) :
-    hirConfigStep all g x = (match x with
-      | .defaultRegisterAccess a => pure { g with defaultRegisterAccess := a }
-      | .defaultFieldAccess a => pure { g with defaultFieldAccess := a }
-      | .defaultBufferAccess a => pure { g with defaultBufferAccess := a }
-      | .defaultByteOrder b => pure { g with defaultByteOrder := some b }
-      | .defaultBitOrder b => pure { g with defaultBitOrder := b }
-      | .registerAddressType i => do pure { g with registerAddressType := some (← hirInteger i) }
-      | .commandAddressType i => do pure { g with commandAddressType := some (← hirInteger i) }
-      | .bufferAddressType i => do pure { g with bufferAddressType := some (← hirInteger i) }
-      | .nameWordBoundaries ns => pure { g with nameWordBoundaries := some ns }
-      | .defmtFeature s => pure { g with defmtFeature := some s }) := by
-  unfold hirConfigStep
-  have := hall x.tag
-  have hn : ¬ ((all.filter fun c' => c'.tag == x.tag).length > 1) := by omega
-  simp only [hn, if_false]
-  cases x <;> rfl
-
-theorem config_render (c : AConfig) : hirConfig (rConfig c) = pure (lowerConfig c) := by
-  unfold hirConfig
-  have hall := config_count c
-  generalize hstep : hirConfigStep (rConfig c) = step
-  have hs : ∀ g x, step g x = _ := fun g x => hstep ▸ config_step (rConfig c) hall g x
-  unfold rConfig
-  simp only [List.append_assoc, foldlM_optItem_append]
-  rw [show (optItem c.defmtFeature HConfig.defmtFeature) = optItem c.defmtFeature HConfig.defmtFeature ++ [] by simp]
-  simp only [foldlM_optItem_append, List.foldlM_nil]
-  obtain ⟨o0, o1, o2, o3, o4, o5, o6, o7, o8, o9⟩ := c
-  cases o0 <;> cases o1 <;> cases o2 <;> cases o3 <;> cases o4 <;> cases o5 <;> cases o6 <;> cases o7 <;>
-    cases o8 <;> cases o9 <;>
-    simp [hs, hirInteger_name, lowerConfig, bind, Except.bind, pure, Except.pure]
 
 end DDV.Gen.HirLemmas
